@@ -179,6 +179,33 @@ type Opnd struct {
 	Prec  uint32
 	Mode  uint8
 	V     Val // exact value (cached)
+	// Stale (±0 and ±Inf only): what the variable held before it became special.
+	// The library documents that mant/exp of a special are ignored and never
+	// clears them, so "a zero/infinity with a history" is a distinct input shape.
+	Stale int8
+}
+
+// staleKinds: previous finite contents of a variable that is now ±0/±Inf.
+var staleKinds = []struct {
+	name  string
+	words []uint64
+	exp   int64
+}{
+	{"", nil, 0},
+	{"held-1", []uint64{BW / 10}, 1},
+	{"held-1e-7", []uint64{BW / 10}, -6},
+	{"held-3-words", []uint64{BW - 1, BW - 1, BW - 1}, 25},
+	{"held-5e5", []uint64{BW / 2}, 6},
+}
+
+// withStale returns a copy of the special operand a with the given history.
+func (a *Opnd) withStale(k int8) *Opnd {
+	if a.Form == fFinite {
+		return a
+	}
+	b := *a
+	b.Stale = k
+	return &b
 }
 
 func (a *Opnd) String() string {
@@ -189,8 +216,14 @@ func (a *Opnd) String() string {
 	switch a.Form {
 	case fZero:
 		s += "0"
+		if a.Stale != 0 {
+			s += "(" + staleKinds[a.Stale].name + ")"
+		}
 	case fInf:
 		s += "Inf"
+		if a.Stale != 0 {
+			s += "(" + staleKinds[a.Stale].name + ")"
+		}
 	default:
 		s += fmt.Sprintf("%s", a.V.Norm().String()[b2i(a.Neg):])
 		s += fmt.Sprintf("[w%d]", len(a.Words))
@@ -293,6 +326,19 @@ func (a *Opnd) Build() *Dec {
 
 func (a *Opnd) BuildInto(z *Dec) {
 	z.SetMode(decimal.RoundingMode(a.Mode))
+	if a.Form != fFinite && a.Stale != 0 {
+		// give the variable a history: a finite value first, made special in place
+		k := staleKinds[a.Stale]
+		ws := make([]Word, len(k.words))
+		for i, w := range k.words {
+			ws[i] = Word(w)
+		}
+		z.SetPrec(60)
+		z.SetBitsExp(ws, k.exp)
+		if a.Form == fZero {
+			z.SetUint64(0)
+		}
+	}
 	switch a.Form {
 	case fZero:
 		z.SetPrec(uint(a.Prec))
@@ -411,6 +457,21 @@ func joinStr(xs []string, sep string) string { return strings.Join(xs, sep) }
 // plain go test source for arithmetic cases (embedded in replay files)
 
 func goOperand(name string, a *Opnd) string {
+	if a.Form != fFinite && a.Stale != 0 {
+		k := staleKinds[a.Stale]
+		st := mkWords(false, k.words, k.exp, 60, 0).V.Norm()
+		var sb strings.Builder
+		fmt.Fprintf(&sb, "\t%s, _, err := decimal.ParseDecimal(\"%se%d\", 10, 60, decimal.RoundingMode(%d)) // the variable's earlier contents\n\tif err != nil {\n\t\tt.Fatal(err)\n\t}\n", name, st.Coef.String(), st.E10, a.Mode)
+		if a.Form == fZero {
+			fmt.Fprintf(&sb, "\t%s.SetUint64(0)\n\t%s.SetPrec(%d)\n", name, name, a.Prec)
+			if a.Neg {
+				fmt.Fprintf(&sb, "\t%s.Neg(%s)\n", name, name)
+			}
+		} else {
+			fmt.Fprintf(&sb, "\t%s.SetPrec(%d)\n\t%s.SetInf(%v)\n", name, a.Prec, name, a.Neg)
+		}
+		return sb.String()
+	}
 	lit := "0"
 	switch a.Form {
 	case fZero:
